@@ -1,4 +1,5 @@
 import Rustic.Model.Restore
+import Rustic.Model.RestoreTasks
 import Rustic.Model.RestoreWalk
 import Driver.Util
 import Driver.C20
@@ -166,7 +167,8 @@ def handle : List String → String
       match old? with
       | none => "bad-op"
       | some o =>
-        match restoreFile { verify := v, sparse := s } o m (chunksOf n c) with
+        -- the writer-task model (`Model/RestoreTasks.lean`; = `restoreFile` by `restore_tasks_eq_segments`)
+        match restoreFileTasks { verify := v, sparse := s } o m (chunksOf n c) with
         | some b => "ok " ++ hex b
         | none => "ok absent"
     | _, _, _, _, _ => "bad-op"
@@ -182,6 +184,10 @@ def handle : List String → String
       if n.isEmpty ∨ n.contains 0 then "bad-op" else
       if kind = "abs" then "refused"
       else if kind = "file" ∨ kind = "dir" then (if refused (comps (chars n)) then "refused" else "restored")
+      -- the name belongs to a file node inside the plain directory `sub`: the streamed path is `sub/<name>`
+      else if kind = "nested" then
+        (if (chars n).head? = some '/' then "bad-op"
+         else if refused (comps ("sub/".toList ++ chars n)) then "refused" else "restored")
       else "bad-op"
     | none => "bad-op"
   | ["tree", seed] => if seed.toNat?.isSome then "ok" else "bad-op"
